@@ -22,6 +22,8 @@ def main():
             subs.append((a[i+1], a[i+2], a[i+3])); i += 4
         elif a[i] == "--subn":
             subs.append((a[i+1], a[i+3], a[i+4], int(a[i+2]))); i += 5
+        elif a[i] == "--re":
+            subs.append((a[i+1], a[i+2], a[i+3], "re")); i += 4
         elif a[i] == "--patch":
             patches.append(a[i+1]); i += 2
         elif a[i] == "--keep":
@@ -39,7 +41,13 @@ def main():
             nth = sub[3] if len(sub) > 3 else None
             p = os.path.join(dst, f)
             t = open(p).read()
-            if nth is None:
+            if nth == "re":
+                import re
+                t2, n = re.subn(old, new, t)
+                if n == 0:
+                    print("MUTATION ERROR: regex %r matches nothing in %s" % (old, f)); return 3
+                open(p, "w").write(t2)
+            elif nth is None:
                 if t.count(old) != 1:
                     print("MUTATION ERROR: %r occurs %d times in %s" % (old[:80], t.count(old), f)); return 3
                 open(p, "w").write(t.replace(old, new))
